@@ -21,7 +21,7 @@ import warnings
 
 from sim import core, peers, refsem
 from sim.core import RunResult, sub_seed
-from sim.c01_session import check_find_answer, _nest
+from sim.c01_session import check_find_answer, _nest, key_arg
 from sim.c02_solve import check_solve, expected_facts
 
 ID = "C03"
@@ -118,7 +118,7 @@ def generate(rng, tier, index):
         if ids or rng.random() < 0.15:
             rng.shuffle(ids)
             keys.update(ids)
-            ops.append({"op": "add_key", "ids": ids})
+            ops.append({"op": "add_key", "ids": ids, "form": rng.randint(0, 5)})
         if rng.random() < 0.15:
             i = rng.randrange(len(decls))
             ops.append({"op": "scribble", "id": i, "val": rng.choice([None, True, 0, 5])})
@@ -370,16 +370,16 @@ def run(sc) -> RunResult:
                                     res.hit("native_graph_node:" + t)
                     elif k == "add_key":
                         if not direct:
-                            solver.add_answer_key([vars_[i] for i in op["ids"]])
+                            solver.add_answer_key(*key_arg(vars_, op["ids"], op.get("form", 0)))
                         keys.update(op["ids"])
                     elif k == "scribble":
                         vars_[op["id"]].sol = op["val"]
                         res.hit("perturb:sol_scribble")
                     elif k in ("find_answer", "solve"):
                         n_before = len(peer.received)
-                        bound = 2 + sum((2 if decls[i]["t"] == "b" else decls[i]["hi"] - decls[i]["lo"] + 1) for i in keys)
+                        bound = 8 + 3 * sum((2 if decls[i]["t"] == "b" else decls[i]["hi"] - decls[i]["lo"] + 1) for i in keys)
                         peer.calls = 0
-                        peer.cap = bound if k == "solve" else 2
+                        peer.cap = bound if k == "solve" else 4
                         expected_holder.pop("last", None)
                         try:
                             if direct:
